@@ -252,6 +252,55 @@ def if_parse_forms():
     return guarded("if-parse", run)
 
 
+def condition_coercion():
+    """Color BASIC takes an IF branch when the value of a numeric condition is non-zero.  Contract of the coercion every IF
+    visitor applies: an expression of BOOLEAN kind (comparison, boolean NOT / parentheses / AND / OR) is the condition as it
+    stands; every other expression e - whatever its class - becomes exactly `e <> 0.0`."""
+    import re
+    from coco.b09.parser import BasicVisitor
+    from tx import subst, f2
+
+    def run():
+        res = []
+        fn = getattr(BasicVisitor, "_as_condition", None)
+        boolean = ("comparison", "boolean-not", "boolean-paren")
+        if fn is not None:
+            bad = []
+            for name, make in subst.children(False):
+                opaque.reset()
+                e = make()
+                try:
+                    got = fn(e)
+                    gt = norm(got.basic09_text(0))
+                    want = norm(e.basic09_text(0)) + ("" if name in boolean else " <> 0.0")
+                    if gt != want or (name in boolean and got is not e):
+                        bad.append(dict(condition=name, expected=want, got=gt))
+                except Exception as ex:  # noqa
+                    bad.append(dict(condition=name, got="%s: %s" % (type(ex).__name__, str(ex)[:100])))
+            res.append(ob("condition/coercion of every expression class", not bad, "boolean kinds unchanged, everything else `e <> 0.0`", bad[:4] or "holds"))
+        # the same through the real rules: every IF form, conditions of each shape the grammar can produce
+        conds = {"A": "A <> 0.0", "(A)": "(A) <> 0.0", "(A-B)": "(A - B) <> 0.0", "-A": "- A <> 0.0", "NOT A": "LNOT(A) <> 0.0", "A AND 1": "LAND(A, 1.0) <> 0.0",
+                 "(A AND 1)": "(LAND(A, 1.0)) <> 0.0", "A+B": "A + B <> 0.0", "NOT (A AND 4)": "LNOT((LAND(A, 4.0))) <> 0.0", "ABS(A)": "ABS(A) <> 0.0",
+                 "A=1": "A = 1.0", "(A=1)": "(A = 1.0)", "NOT A=1": "NOT(A = 1.0)", "A=1 OR B=2": "A = 1.0 OR B = 2.0"}
+        forms = ["IF %s THEN 10", "IF %s THEN B=1", "IF %s THEN 10 ELSE 20", "IF %s THEN B=1 ELSE B=2", "IF Z=9 THEN 10 ELSE IF %s THEN 20", "IF %s THEN 10 ELSE IF Z=9 THEN 20 ELSE 30"]
+        for c, want in conds.items():
+            bad = []
+            for form in forms:
+                src = form % c
+                try:
+                    o, _ = f2.build("statement", src, {})
+                    text = norm(o.basic09_text(0))
+                except Exception as ex:  # noqa
+                    bad.append(dict(source=src, got="%s: %s" % (type(ex).__name__, str(ex)[:100])))
+                    continue
+                found = re.findall(r"(?m)^(?:IF|EXITIF) (.*?) THEN", text)
+                if want not in found:
+                    bad.append(dict(source=src, conditions_emitted=found, expected=want))
+            res.append(ob("condition/%s in every IF form" % c, not bad, want, bad[:3] or "holds"))
+        return res
+    return guarded("condition", run)
+
+
 def prog_sequencing():
     def run():
         res = []
@@ -290,4 +339,4 @@ def convert_sequencing():
 
 
 def obligations():
-    return next_patcher() + fornext_count() + if_semantics() + if_parse_forms() + prog_sequencing() + convert_sequencing()
+    return next_patcher() + fornext_count() + if_semantics() + if_parse_forms() + condition_coercion() + prog_sequencing() + convert_sequencing()
